@@ -42,6 +42,16 @@ func Word(s string) Value { return Value{Kind: VWord, S: s, Text: s} }
 // Int makes an integer value.
 func Int(i int) Value { return Value{Kind: VInt, I: i, Text: strconv.Itoa(i)} }
 
+// IntText makes an integer value with an explicit spelling (leading zeros, for instance); the
+// value is what the documented decimal reading gives.
+func IntText(text string) Value {
+	i, err := strconv.Atoi(text)
+	if err != nil {
+		panic("qt.IntText: " + text)
+	}
+	return Value{Kind: VInt, I: i, Text: text}
+}
+
 // Float makes a float value from its spelling.
 func Float(text string) Value {
 	f, err := strconv.ParseFloat(text, 64)
